@@ -194,6 +194,10 @@ def run(ctx):
         from sa.desugar import desugar as _desugar
 
         fdx = _desugar(f.node)
+        for n in walk_own(fdx):   # the lookup result by whatever name the canonical form holds it
+            if isinstance(n, ast.Assign) and isinstance(n.targets[0], ast.Name) and isinstance(n.value, ast.Call) \
+                    and isinstance(n.value.func, ast.Attribute) and n.value.func.attr == "_find_by_sha1":
+                var = n.targets[0].id
         news_d = [n for n in walk_own(fdx) if isinstance(n, ast.Call) and dotted(n.func) == newcls + ".new"]
         n_paths = 0
         guarded = bool(var) and bool(news_d)
@@ -277,11 +281,13 @@ def run(ctx):
             ctx.violation("R15.2", "%s._find_by_sha1" % cname, "lookup does not compare the digest of every existing part and return "
                           "the match", file=pk.relpath, line=fb.line)
         # the scan covers every part reachable by an image / media relationship of the whole package
-        it = c.methods.get("__iter__")
+        from sa.inline import with_self_class as _wsc
+
+        it = prog.lookup(c, "__iter__")   # own, or inherited from a base shared by the image and the media view
         if it is None:
             raise AnalysisError("anchor vanished: %s.__iter__" % cname)
         want = {"_ImageParts": {"RT.IMAGE"}, "_MediaParts": {"RT.MEDIA", "RT.VIDEO"}}[cname]
-        itx = _expand(prog, it, local_only=True)
+        itx = _expand(prog, _wsc(it, c), local_only=True)
         ial, ival = P_.aliases(itx), P_.value_aliases(itx)
         loops_ = [n for n in ast.walk(itx) if isinstance(n, ast.For) and isinstance(n.iter, ast.Call) and P_.norm(n.iter.func, ial) == "self._package.iter_rels"
                   and isinstance(n.target, ast.Name)]
@@ -304,6 +310,13 @@ def run(ctx):
                             if isinstance(names, (ast.Tuple, ast.List, ast.Set)):
                                 got |= {dotted(e) for e in names.elts}
                                 skips_on_mismatch = True
+                            else:
+                                # a table of the class (`self._reltypes`), folded for this class and compared by value
+                                tv = prog.const(names, it.module, None, c)
+                                if isinstance(tv, (tuple, list, frozenset)) and all(isinstance(q, str) for q in tv):
+                                    byval = {prog.const(ast.parse(w_, mode="eval").body, it.module): w_ for w_ in want}
+                                    got |= {byval.get(q, q) for q in tv}
+                                    skips_on_mismatch = True
         if not whole:
             ctx.error("%s.__iter__" % cname, "walk over the package relationships not recognised")
             continue
